@@ -2,7 +2,7 @@
 (* Trace validation of the real binary's output against Obs_Stream (C01 C04 C14, and the *)
 (* per-run half of C02/C08/C10).  One event per run:                                      *)
 (*   [run, cfg, lines, rows, code, stderr]                                                *)
-(*   cfg   = [keep (markers kept), tabs, colorOnly]                                       *)
+(*   cfg   = [keep (markers kept), tabs, colorOnly, buf, hhFile, rel, wd (word-diff mode)] *)
 (*   lines = input history: [c, f, g, kd, pre, pay, bid]  (pre/pay: code points; bid: id *)
 (*           of the line's bytes after the normalisations C04 permits)                    *)
 (*   rows  = observed output rows: [t, vis, bid, fs, lab, mode, bin, frag]                *)
@@ -34,7 +34,7 @@ WantVisAs(line, cfg, tag) ==
   ELSE WantVis(line, cfg)
 
 \* The implementation-shaped model, run on the same history (drift report, never a verdict)
-IS(b) == INSTANCE Impl_Stream WITH Buf <- b, ColorOnly <- FALSE, Fixes <- {"D1", "D14", "D2", "D18", "D19", "D20", "D21", "D23"}
+IS(b) == INSTANCE Impl_Stream WITH Modes <- {}, Buf <- b, ColorOnly <- FALSE, Fixes <- {"D1", "D14", "D2", "D18", "D19", "D20", "D21", "D23"}
 RECURSIVE ImplRun(_, _, _, _)
 ImplRun(b, h, st, k) == IF k > Len(h) THEN st ELSE ImplRun(b, h, IS(b)!Step(st, k, h[k]), k + 1)
 ImplRows(e) == IS(e.cfg.buf)!Finish(ImplRun(e.cfg.buf, e.lines, IS(e.cfg.buf)!InitS, 1)).w
@@ -49,7 +49,13 @@ WantFiles(d) == IF d[3] = "comparing" THEN <<d[1], d[2]>> ELSE IF d[1] = d[2] TH
 \* does observed row g satisfy what is wanted (w: a Row of Obs_Stream) for history h?
 RowMatches(h, cfg, w, g) ==
   LET line == h[w.k] IN
-  CASE w.t \in {"raw", "rawopt"} /\ line.c = "stat" /\ cfg.rel ->
+  CASE cfg.wd /\ w.t \in BodyC ->
+            \* word-diff mode (the calling git was given --word-diff / --color-words): a hunk line has no marker column;
+            \* it is shown whole, as it came, tabs expanded
+            LET want == line.pre \o Expand(line.pay, cfg.tabs, 1) IN
+            /\ g.t \in {"raw", "styled", "blank", "deco"}      \* (unpainted; a row of blanks or rule characters reads as decoration)
+            /\ g.vis = want \/ (g.vis = <<>> /\ \A i \in DOMAIN want : want[i] = SP)     \* (a row of blanks reads as an empty row)
+    [] w.t \in {"raw", "rawopt"} /\ line.c = "stat" /\ cfg.rel ->
             \* diffstat line under --relative-paths: the path as seen from the user's directory (rp), filled to the
             \* alignment width, then the rest of the line from the bar on (sfx)
             g.vis = <<SP>> \o line.rp \o [i \in 1..(IF Len(line.rp) < StatWidth THEN StatWidth - Len(line.rp) ELSE 0) |-> SP] \o line.sfx
@@ -102,7 +108,7 @@ Judge(e) ==
                 gt |-> IF m[2] <= Len(e.rows) THEN e.rows[m[2]].t ELSE "end"]
 
 Drifts(e) ==
-  IF e.cfg.colorOnly \/ e.code # 0 THEN FALSE
+  IF e.cfg.colorOnly \/ e.cfg.wd \/ e.code # 0 THEN FALSE
   ELSE LET pr == ImplRows(e)
            pt == [i \in DOMAIN pr |-> pr[i].t]
            \* (rules are decoration rows on the observed side; passed-through text may carry colours of its own)
